@@ -153,10 +153,15 @@ unsafe impl Hal for SimHal {
             }
             let paddr = w.hal.next_share;
             w.hal.next_share += ((len as u64 + 15) & !15) + 16;
-            // Bounce: the device only ever sees this copy.
-            let mut bounce = vec![0u8; len];
-            // SAFETY: caller guarantees the buffer is valid for `len` bytes.
-            unsafe { std::ptr::copy_nonoverlapping(ptr as *const u8, bounce.as_mut_ptr(), len) };
+            // Bounce: the device only ever sees this copy. Direct: it sees the buffer itself.
+            let bounce = if w.hal.bounce {
+                let mut b = vec![0u8; len];
+                // SAFETY: caller guarantees the buffer is valid for `len` bytes.
+                unsafe { std::ptr::copy_nonoverlapping(ptr as *const u8, b.as_mut_ptr(), len) };
+                Some(b)
+            } else {
+                None
+            };
             w.hal.seq += 1;
             let seq = w.hal.seq;
             w.hal.shares.insert(
@@ -213,9 +218,9 @@ unsafe impl Hal for SimHal {
                 );
             }
             w.hal.n_unshare += 1;
-            if s.dir.device_may_write() {
+            if let (true, Some(b)) = (s.dir.device_may_write(), &s.bounce) {
                 // SAFETY: caller guarantees the buffer is valid for `len` bytes.
-                unsafe { std::ptr::copy_nonoverlapping(s.bounce.as_ptr(), ptr as *mut u8, len) };
+                unsafe { std::ptr::copy_nonoverlapping(b.as_ptr(), ptr as *mut u8, len) };
             }
         })
     }
